@@ -7,6 +7,8 @@ import (
 	"fmt"
 	"io"
 	"os"
+	"os/exec"
+	"path/filepath"
 	"sort"
 	"strings"
 	"sync"
@@ -711,4 +713,85 @@ func sweeperInsertsAhead(out *AreaOut) error {
 		}
 	}
 	return nil
+}
+
+// ---- a zero-length stored value at the very end of the data file (child process: the failure is a SIGBUS) ----
+
+func init() { areas["eof-value-child"] = areaEOFValueChild }
+
+// areaEOFValueChild (hidden): one LMDB whose only application entry has a zero-length value (the last node of the
+// last page of the data file), then one SendOnce. Mode from EOF_CHILD_MODE = native | shadow. Exit code 0 = SendOnce
+// returned (with or without an error); the parent looks at how the process ended.
+func areaEOFValueChild(r *Rng, n int, dir string) (*AreaOut, error) {
+	native := os.Getenv("EOF_CHILD_MODE") == "native"
+	env, cleanup, err := newEnv()
+	if err != nil {
+		return nil, err
+	}
+	defer cleanup()
+	err = env.Update(func(txn *lmdb.Txn) error {
+		d, err := txn.OpenDBI("app", lmdb.Create)
+		if err != nil {
+			return err
+		}
+		return txn.Put(d, []byte("a\x00"), []byte{}, 0)
+	})
+	if err != nil {
+		return nil, err
+	}
+	sy, err := newSyncer(env, memory.New(), syncerOpts{Native: native, Instance: "a"})
+	if err != nil {
+		return nil, err
+	}
+	_, serr := sy.SendOnce(context.Background(), env)
+	fmt.Printf("eof-value-child native=%v SendOnce returned: %v\n", native, serr)
+	return &AreaOut{Hist: map[string]int{}}, nil
+}
+
+// eofValueProbe runs the child for both modes. Shadow mode: the empty value is application data and must be dumped
+// (C06, C11; defect F14, repaired). Native mode: a zero-length value has no header and must be REJECTED WITH AN
+// ERROR (C14) — on the current code the process dies instead (known finding, see KNOWN_FINDINGS.txt).
+func eofValueProbe(out *AreaOut, dir string) {
+	exe, err := os.Executable()
+	if err != nil {
+		return
+	}
+	for _, mode := range []string{"shadow", "native"} {
+		out.OracleN++
+		cctx, ccancel := context.WithTimeout(context.Background(), 60*time.Second)
+		cmd := exec.CommandContext(cctx, exe, "eof-value-child", "-out", filepath.Join(dir, "eof_child_"+mode))
+		cmd.Env = append(os.Environ(), "EOF_CHILD_MODE="+mode)
+		var buf bytes.Buffer
+		cmd.Stdout, cmd.Stderr = &buf, &buf
+		rerr := cmd.Run()
+		ccancel()
+		os.RemoveAll(filepath.Join(dir, "eof_child_"+mode))
+		o := buf.String()
+		died := rerr != nil && (strings.Contains(o, "SIGBUS") || strings.Contains(o, "SIGSEGV") || strings.Contains(o, "fatal error"))
+		hist(out.Hist, fmt.Sprintf("zero-length-value-at-end-of-file/%s/died=%v", mode, died))
+		switch {
+		case mode == "shadow" && died:
+			for _, pid := range []string{"C06", "C11"} {
+				out.Oracle = append(out.Oracle, OracleFailure{pid, "empty-value-at-end-of-file-kills-the-process", "shadow mode, application DBI whose only entry (key 6100) has a zero-length value: SendOnce killed the process: " + firstLine(o), map[string]any{"mode": mode}})
+			}
+		case mode == "shadow" && !strings.Contains(o, "SendOnce returned: <nil>"):
+			out.Oracle = append(out.Oracle, OracleFailure{"C06", "empty-value-dumped", "shadow mode, application DBI whose only entry has a zero-length value: SendOnce did not succeed: " + firstLine(o), map[string]any{"mode": mode}})
+		case mode == "native" && died:
+			out.Oracle = append(out.Oracle, OracleFailure{"C14", "zero-length-native-value-at-end-of-file", "native schema, a DBI whose only entry (key 6100) has a ZERO-LENGTH value (no header: must be rejected with an error): SendOnce killed the process instead: " + firstLine(o), map[string]any{"mode": mode}})
+		case mode == "native" && strings.Contains(o, "SendOnce returned: <nil>"):
+			out.Oracle = append(out.Oracle, OracleFailure{"C14", "too-short-rejected", "native schema, a stored zero-length value (no header) was dumped without an error", map[string]any{"mode": mode}})
+		}
+	}
+}
+
+func firstLine(s string) string {
+	for _, l := range strings.Split(s, "\n") {
+		if strings.Contains(l, "signal") || strings.Contains(l, "fatal") || strings.Contains(l, "returned") {
+			return l
+		}
+	}
+	if len(s) > 200 {
+		return s[:200]
+	}
+	return s
 }
